@@ -215,30 +215,39 @@ def keysModelled : List Carrier → Bool
   | c :: cs => keyModelled c && keysModelled cs
 end
 
-/-- `BTreeSet::insert`, scanning from the smallest element. -/
-def insertSet (x : RustVal) : List RustVal → List RustVal
+/-- Which family of Rust collections the set / map carriers of a decode are: `BTreeSet::from_iter` /
+`BTreeMap::from_iter` are a stable sort followed by `DedupSortedIter` — of `Ord`-equal keys the LAST one is kept
+(key and value); `HashSet` / `HashMap` `extend` by `insert` — the FIRST key is kept, a map entry gets the last
+value.  (It only shows for keys that are equal without being identical: `CqlTimeuuid`s differing in the version
+nibble.)  The `Carrier` type does not distinguish the two families, the decoder takes the flavour as a parameter
+(a carrier mixing both families is not expressible). -/
+inductive Flavour where
+  | btree | hash
+  deriving Repr, DecidableEq
+
+/-- Insert into the sorted, duplicate-free representation. -/
+def insertSet (fl : Flavour) (x : RustVal) : List RustVal → List RustVal
   | [] => [x]
   | y :: ys =>
     match rvCmp y x with
-    | .lt => y :: insertSet x ys
-    | .eq => y :: ys
+    | .lt => y :: insertSet fl x ys
+    | .eq => (match fl with | .btree => x | .hash => y) :: ys
     | .gt => x :: y :: ys
 
-/-- `iter.collect::<BTreeSet<_>>()`. -/
-def collectSet (xs : List RustVal) : List RustVal := xs.foldl (fun acc x => insertSet x acc) []
+/-- `iter.collect::<BTreeSet<_>>()` / `::<HashSet<_>>()` (the latter printed sorted). -/
+def collectSet (fl : Flavour) (xs : List RustVal) : List RustVal := xs.foldl (fun acc x => insertSet fl x acc) []
 
-/-- `BTreeMap::insert`: an existing key keeps its place and gets the new value. -/
-def insertMap (kv : RustVal × RustVal) : List (RustVal × RustVal) → List (RustVal × RustVal)
+def insertMap (fl : Flavour) (kv : RustVal × RustVal) : List (RustVal × RustVal) → List (RustVal × RustVal)
   | [] => [kv]
   | e :: es =>
     match rvCmp e.1 kv.1 with
-    | .lt => e :: insertMap kv es
-    | .eq => (e.1, kv.2) :: es
+    | .lt => e :: insertMap fl kv es
+    | .eq => (match fl with | .btree => kv | .hash => (e.1, kv.2)) :: es
     | .gt => kv :: e :: es
 
-/-- `iter.collect::<BTreeMap<_, _>>()`. -/
-def collectMap (kvs : List (RustVal × RustVal)) : List (RustVal × RustVal) :=
-  kvs.foldl (fun acc kv => insertMap kv acc) []
+/-- `iter.collect::<BTreeMap<_, _>>()` / `::<HashMap<_, _>>()`. -/
+def collectMap (fl : Flavour) (kvs : List (RustVal × RustVal)) : List (RustVal × RustVal) :=
+  kvs.foldl (fun acc kv => insertMap fl kv acc) []
 
 /-- Every earlier element is strictly below every later one (the list a B-tree set iterates as). -/
 def pairwiseLt : List RustVal → Bool
@@ -262,11 +271,11 @@ def deserPrim (u : Bytes → Bool) (t : CqlTy) (cell : Option Bytes) : Except De
 
 mutual
 /-- `DeserializeValue::deserialize` of carrier `c` (assumes `tcheck c t`, as the Rust code does). -/
-def deserCarrier (u : Bytes → Bool) : Carrier → CqlTy → Option Bytes → Except DeErr RustVal
+def deserCarrier (u : Bytes → Bool) (fl : Flavour) : Carrier → CqlTy → Option Bytes → Except DeErr RustVal
   | .opt c, t, cell => match cell with
     | none => .ok .none
     | some b =>
-      match deserCarrier u c t (some b) with
+      match deserCarrier u fl c t (some b) with
       | .error e => .error e
       | .ok x => .ok (.some x)
   | .maybeEmpty c, t, cell => match cell with
@@ -274,7 +283,7 @@ def deserCarrier (u : Bytes → Bool) : Carrier → CqlTy → Option Bytes → E
     | some b =>
       if b.isEmpty then .ok .empty
       else
-        match deserCarrier u c t (some b) with
+        match deserCarrier u fl c t (some b) with
         | .error e => .error e
         | .ok x => .ok (.value x)
   | .maybeUnset _, _, _ => .error .expectedNonNull
@@ -286,7 +295,7 @@ def deserCarrier (u : Bytes → Bool) : Carrier → CqlTy → Option Bytes → E
         match readCount bs with
         | .error e => .error e
         | .ok (n, rest) =>
-          match seqG (fun o => deserCarrier u c elt o) n rest with
+          match seqG (fun o => deserCarrier u fl c elt o) n rest with
           | .error e => .error e
           | .ok xs => .ok (.seq xs)
     | .vector elt dim =>
@@ -295,11 +304,11 @@ def deserCarrier (u : Bytes → Bool) : Carrier → CqlTy → Option Bytes → E
       | some bs =>
         match elt.sizeForVector with
         | some size =>
-          match vecFixedG (fun o => deserCarrier u c elt o) size dim bs with
+          match vecFixedG (fun o => deserCarrier u fl c elt o) size dim bs with
           | .error e => .error e
           | .ok xs => .ok (.seq xs)
         | none =>
-          match vecVarG (fun o => deserCarrier u c elt o) dim bs with
+          match vecVarG (fun o => deserCarrier u fl c elt o) dim bs with
           | .error e => .error e
           | .ok xs => .ok (.seq xs)
     | _ => .error .expectedNonNull
@@ -311,9 +320,9 @@ def deserCarrier (u : Bytes → Bool) : Carrier → CqlTy → Option Bytes → E
         match readCount bs with
         | .error e => .error e
         | .ok (n, rest) =>
-          match seqG (fun o => deserCarrier u c elt o) n rest with
+          match seqG (fun o => deserCarrier u fl c elt o) n rest with
           | .error e => .error e
-          | .ok xs => .ok (.seq (collectSet xs))
+          | .ok xs => .ok (.seq (collectSet fl xs))
     | _ => .error .expectedNonNull
   | .map k v, t, cell => match t with
     | .map kt vt =>
@@ -323,16 +332,16 @@ def deserCarrier (u : Bytes → Bool) : Carrier → CqlTy → Option Bytes → E
         match readCount bs with
         | .error e => .error e
         | .ok (n, rest) =>
-          match mapG (fun o => deserCarrier u k kt o) (fun o => deserCarrier u v vt o) n rest with
+          match mapG (fun o => deserCarrier u fl k kt o) (fun o => deserCarrier u fl v vt o) n rest with
           | .error e => .error e
-          | .ok kvs => .ok (.pairs (collectMap kvs))
+          | .ok kvs => .ok (.pairs (collectMap fl kvs))
     | _ => .error .expectedNonNull
   | .tuple cs, t, cell => match t with
     | .tuple ts =>
       match cell with
       | none => .error .expectedNonNull
       | some bs =>
-        match deserTuple u cs ts bs with
+        match deserTuple u fl cs ts bs with
         | .error e => .error e
         | .ok xs => .ok (.tuple xs)
     | _ => .error .expectedNonNull
@@ -344,34 +353,54 @@ def deserCarrier (u : Bytes → Bool) : Carrier → CqlTy → Option Bytes → E
       | .ok v => .ok (.dyn v)
   | _, t, cell => deserPrim u t cell
 /-- The tuple macro: per field "no bytes left ⇒ null", else `read_cql_bytes`. -/
-def deserTuple (u : Bytes → Bool) : List Carrier → List CqlTy → Bytes → Except DeErr (List RustVal)
+def deserTuple (u : Bytes → Bool) (fl : Flavour) : List Carrier → List CqlTy → Bytes → Except DeErr (List RustVal)
   | c :: cs, t :: ts, bs =>
     if bs.isEmpty then
-      match deserCarrier u c t none with
+      match deserCarrier u fl c t none with
       | .error e => .error e
       | .ok x =>
-        match deserTuple u cs ts bs with
+        match deserTuple u fl cs ts bs with
         | .error e => .error e
         | .ok r => .ok (x :: r)
     else
       match readCqlBytes bs with
       | .error e => .error e
       | .ok (o, rest) =>
-        match deserCarrier u c t o with
+        match deserCarrier u fl c t o with
         | .error e => .error e
         | .ok x =>
-          match deserTuple u cs ts rest with
+          match deserTuple u fl cs ts rest with
           | .error e => .error e
           | .ok r => .ok (x :: r)
   | _, _, _ => .ok []
 end
 
+/-- `UdtIterator` used directly: per type field the raw item — missing (no bytes left), null, or its bytes. -/
+inductive RawField where
+  | missing | null | bytes (b : Bytes)
+  deriving Repr
+
+def udtIterG : Nat → Bytes → Except DeErr (List RawField)
+  | 0, _ => .ok []
+  | n + 1, bs =>
+    if bs.isEmpty then
+      match udtIterG n bs with
+      | .error e => .error e
+      | .ok r => .ok (.missing :: r)
+    else
+      match readCqlBytes bs with
+      | .error e => .error e
+      | .ok (o, rest) =>
+        match udtIterG n rest with
+        | .error e => .error e
+        | .ok r => .ok ((match o with | none => RawField.null | some b => .bytes b) :: r)
+
 /-- A typed read of a serialized cell: `type_check`, split the `[bytes]`, `deserialize`. -/
-def typedRead (u : Bytes → Bool) (c : Carrier) (t : CqlTy) (cell : Bytes) : Option (Except DeErr RustVal) :=
+def typedRead (u : Bytes → Bool) (fl : Flavour) (c : Carrier) (t : CqlTy) (cell : Bytes) : Option (Except DeErr RustVal) :=
   if tcheck c t then
     match readCqlBytes cell with
     | .error e => some (.error e)
-    | .ok (o, _) => some (deserCarrier u c t o)
+    | .ok (o, _) => some (deserCarrier u fl c t o)
   else none
 
 /-! ### domain of the typed round trip -/
